@@ -6,93 +6,11 @@
 // std::from_chars, and every subset of getters before assert_none_unused.
 // Compiled with -fno-access-control: the private containers are read only to check that nothing
 // beyond what the public getters show was stored ("classified exactly once").
-#include <math.h>
+#include "C17_common.hh"
 
-#include <charconv>
-#include <limits>
-#include <map>
-#include <optional>
-#include <string>
-#include <vector>
-
-#include "Arguments.hh"
-#include <errno.h>
-
-#include "vf.hh"
-
-using phosg::Arguments;
-typedef Arguments::IntFormat IntFormat;
-typedef unsigned __int128 u128;
-typedef __int128 i128;
+using namespace c17;
 
 namespace {
-
-std::string s128(i128 v) {
-  if (v == 0) return "0";
-  bool neg = v < 0;
-  u128 u = neg ? (u128)(-(v + 1)) + 1 : (u128)v;
-  std::string s;
-  while (u) { s.insert(s.begin(), (char)('0' + (int)(u % 10))); u /= 10; }
-  return neg ? "-" + s : s;
-}
-
-std::string list_str(const std::vector<std::string>& v) {
-  std::string s = "[";
-  for (size_t i = 0; i < v.size(); i++) s += (i ? ", " : "") + vf::show(v[i]);
-  return s + "]";
-}
-
-// ---------------------------------------------------------------------------------------------------
-// classification reference
-// ---------------------------------------------------------------------------------------------------
-struct RefArgs {
-  std::vector<std::string> positional;
-  std::map<std::string, std::vector<std::string>> named;
-  size_t named_total = 0;
-  bool operator==(const RefArgs& o) const { return positional == o.positional && named == o.named; }
-};
-
-// positional unless it starts with '-' and has more; "--name[=value]" (first '=' splits) is a named
-// option; "-abc" is the flags a, b, c (each a named option with empty value); "-" and "--" alone carry
-// neither a flag letter nor a name and stay positional
-RefArgs ref_classify(const std::vector<std::string>& tokens) {
-  RefArgs r;
-  for (const std::string& t : tokens) {
-    if (t.size() > 2 && t[0] == '-' && t[1] == '-') {
-      std::string body = t.substr(2);
-      size_t eq = body.find('=');
-      std::string name = eq == std::string::npos ? body : body.substr(0, eq);
-      std::string value = eq == std::string::npos ? std::string() : body.substr(eq + 1);
-      r.named[name].push_back(value);
-      r.named_total++;
-    } else if (t.size() >= 2 && t[0] == '-' && t[1] != '-') {
-      for (size_t i = 1; i < t.size(); i++) {
-        r.named[std::string(1, t[i])].push_back("");
-        r.named_total++;
-      }
-    } else {
-      r.positional.push_back(t);
-    }
-  }
-  return r;
-}
-
-// white-box snapshot of an Arguments object
-RefArgs snapshot(const Arguments& a) {
-  RefArgs r;
-  for (auto& p : a.positional) r.positional.push_back(p.text);
-  for (auto& kv : a.named) {
-    auto& v = r.named[kv.first];
-    for (auto& t : kv.second) { v.push_back(t.text); r.named_total++; }
-  }
-  return r;
-}
-std::string ref_str(const RefArgs& r) {
-  std::string s = "positional=" + list_str(r.positional) + " named={";
-  bool first = true;
-  for (auto& kv : r.named) { s += (first ? "" : ", ") + vf::show(kv.first) + ":" + list_str(kv.second); first = false; }
-  return s + "}";
-}
 
 const char* TOKENS[13] = {"a", "", "-", "--", "-x", "-xy", "-5", "--n", "--n=v", "--n=", "--=v", "--n=v=w", "--m=7"};
 // names asked for: every name the grammar can produce plus strings that must NOT have become names
@@ -225,169 +143,11 @@ std::vector<std::string> renderings(const std::string& t) {
 }
 
 // ---------------------------------------------------------------------------------------------------
-// integer numeral reference
+// one (text, format): all targets of the chosen type set x the chosen access paths
 // ---------------------------------------------------------------------------------------------------
-enum Cls { INVALID, VALID, DONTCARE };
-struct RefNum {
-  Cls cls = INVALID;
-  bool neg = false;
-  u128 mag = 0;
-  bool huge = false;  // magnitude >= 2^100 (saturated)
-  bool plus = false;  // explicit '+': rejecting it is fine, but if it is accepted the value must be right
-  const char* why = "";
-};
+enum TypeSet { T_NARROW, T_FIXED, T_ALL };  // six 8/16/32-bit types; + the two 64-bit types; + long long, unsigned long long, char, wchar_t, char16_t, char32_t
 
-int digit_of(char c) {
-  if (c >= '0' && c <= '9') return c - '0';
-  if (c >= 'a' && c <= 'f') return c - 'a' + 10;
-  if (c >= 'A' && c <= 'F') return c - 'A' + 10;
-  return 99;
-}
-
-// A complete numeral: [-] digits of the requested base; HEX may carry 0x; DEFAULT follows the C
-// convention (0x.. hex, 0.. octal, otherwise decimal).  Leading blanks are don't-care; whether an explicit
-// '+' belongs to a numeral is not settled by the statement (rejecting is fine; if accepted, value and fit
-// are checked).
-RefNum ref_numeral(const std::string& t, IntFormat f) {
-  RefNum r;
-  if (t.empty()) { r.why = "empty"; return r; }
-  if (t[0] == ' ' || (t[0] >= '\t' && t[0] <= '\r')) { r.cls = DONTCARE; r.why = "leading blank"; return r; }
-  size_t i = 0;
-  bool plus = false;
-  if (t[i] == '-') { r.neg = true; i++; }
-  else if (t[i] == '+') { plus = true; i++; }
-  auto is_x = [&](size_t k) { return k + 2 < t.size() && t[k] == '0' && (t[k + 1] == 'x' || t[k + 1] == 'X') && digit_of(t[k + 2]) < 16; };
-  int base = 10;
-  switch (f) {
-    case IntFormat::DECIMAL: base = 10; break;
-    case IntFormat::OCTAL: base = 8; break;
-    case IntFormat::HEX: base = 16; if (is_x(i)) i += 2; break;
-    case IntFormat::DEFAULT:
-      if (is_x(i)) { base = 16; i += 2; }
-      else if (i < t.size() && t[i] == '0') base = 8;
-      else base = 10;
-      break;
-  }
-  if (i >= t.size()) { r.why = "no digits"; return r; }
-  for (; i < t.size(); i++) {
-    int d = digit_of(t[i]);
-    if (d >= base) { r.why = "not a digit of the base"; return r; }
-    if (!r.huge) {
-      r.mag = r.mag * (unsigned)base + (unsigned)d;
-      if (r.mag >> 100) r.huge = true;
-    }
-  }
-  r.cls = VALID;
-  r.plus = plus;
-  r.why = plus ? "numeral with explicit plus sign" : "numeral";
-  return r;
-}
-
-template <class T> const char* iname();
-template <> const char* iname<int8_t>() { return "int8_t"; }
-template <> const char* iname<uint8_t>() { return "uint8_t"; }
-template <> const char* iname<int16_t>() { return "int16_t"; }
-template <> const char* iname<uint16_t>() { return "uint16_t"; }
-template <> const char* iname<int32_t>() { return "int32_t"; }
-template <> const char* iname<uint32_t>() { return "uint32_t"; }
-template <> const char* iname<int64_t>() { return "int64_t"; }
-template <> const char* iname<uint64_t>() { return "uint64_t"; }
-
-const char* fmt_name(IntFormat f) {
-  switch (f) {
-    case IntFormat::DEFAULT: return "DEFAULT";
-    case IntFormat::HEX: return "HEX";
-    case IntFormat::DECIMAL: return "DECIMAL";
-    case IntFormat::OCTAL: return "OCTAL";
-  }
-  return "?";
-}
-const IntFormat FORMATS[4] = {IntFormat::DEFAULT, IntFormat::DECIMAL, IntFormat::HEX, IntFormat::OCTAL};
-
-enum Expect { E_VALUE, E_INVALID, E_DONTCARE };
-template <class T>
-Expect expectation(const RefNum& n, uint64_t* bits) {
-  if (n.cls == DONTCARE) return E_DONTCARE;
-  if (n.cls == INVALID) return E_INVALID;
-  typedef std::numeric_limits<T> L;
-  if (sizeof(T) == 8) {
-    // statement: for 64-bit targets any numeral of magnitude below 2^63 is returned; beyond: don't-care
-    if (n.huge || n.mag >= ((u128)1 << 63)) return E_DONTCARE;
-    *bits = n.neg ? (uint64_t)0 - (uint64_t)n.mag : (uint64_t)n.mag;
-    return E_VALUE;
-  }
-  if (n.huge) return E_INVALID;
-  if (n.neg) {
-    u128 lim = L::is_signed ? (u128)1 << (sizeof(T) * 8 - 1) : 0;
-    if (n.mag > lim) return E_INVALID;
-    *bits = (uint64_t)0 - (uint64_t)n.mag;
-  } else {
-    if (n.mag > (u128)(uint64_t)L::max()) return E_INVALID;
-    *bits = (uint64_t)n.mag;
-  }
-  return E_VALUE;
-}
-
-// errno is ambient process state: whatever an earlier, unrelated library call left there.  The
-// getters' results must not depend on it, so every typed read starts from a pre-decided value
-// (a function of the case index and the access path, hence identical on replay).  Without this a
-// defect that consults a stale errno fails or passes depending on which cases ran before it.
-static inline void set_ambient_errno(const vf::Run& r, int via) {
-  static const int STATES[3] = {0, ERANGE, EINVAL};
-  errno = STATES[(r.cur + (uint64_t)via) % 3];
-}
-
-enum Via { VIA_NAMED, VIA_MULTI, VIA_DEFAULT, VIA_POSITIONAL, NVIA };
-const char* via_name[] = {"get<T>(name, fmt)", "get_multi<T>(name, fmt)", "get<T>(name, default, fmt)", "get<T>(position, fmt)"};
-
-// One typed read of `text` and its comparison with the reference.  Returns the outcome class for the
-// histogram or nullptr after reporting a violation.
-template <class T>
-const char* int_read(vf::Run& r, Arguments& named, Arguments* positional, const std::string& text, const RefNum& ref, IntFormat f, Via via) {
-  uint64_t want_bits = 0;
-  Expect e = expectation<T>(ref, &want_bits);
-  T got = 0;
-  size_t count = 1;
-  std::string what;
-  std::string oc = vf::outcome([&] {
-    set_ambient_errno(r, (int)via);
-    switch (via) {
-      case VIA_NAMED: got = named.get<T>("x", f); break;
-      case VIA_MULTI: { auto v = named.get_multi<T>("x", f); count = v.size(); got = v.empty() ? 0 : v[0]; break; }
-      case VIA_DEFAULT: got = named.get<T>("x", (T)77, f); break;
-      case VIA_POSITIONAL: got = positional->get<T>((size_t)0, f); break;
-      default: break;
-    }
-  }, &what);
-  r.counters["getter_calls"]++;
-  if (e == E_DONTCARE) return "don't-care input (executed, not compared)";
-  if (ref.plus && oc == "invalid_argument") return "don't-care input (executed, not compared)";
-  std::string K = std::string("get<") + iname<T>() + ">";
-  auto ctx = [&] { return vf::fmt("%s with T=%s fmt=%s on text ", via_name[via], iname<T>(), fmt_name(f)) + vf::show(text) + " (reference: " + ref.why + (ref.cls == VALID ? std::string(", value ") + (ref.neg ? "-" : "") + (ref.huge ? ">=2^100" : s128((i128)ref.mag)) : std::string()) + ")"; };
-  if (oc != "ok" && oc != "invalid_argument") {
-    r.fail(K + ":wrong-exception-type", [&] { return ctx() + " threw " + oc + " (" + what + ")"; });
-    return nullptr;
-  }
-  if (e == E_INVALID) {
-    if (oc == "ok") {
-      r.fail(K + (ref.cls == VALID ? ":accepts-numeral-that-does-not-fit" : ":accepts-incomplete-numeral"), [&] { return ctx() + " returned " + s128((i128)got) + ", expected invalid_argument"; });
-      return nullptr;
-    }
-    return ref.cls == VALID ? "rejected: does not fit" : "rejected: not a numeral of the base";
-  }
-  if (oc != "ok") {
-    r.fail(K + ":rejects-fitting-numeral", [&] { return ctx() + " threw invalid_argument (" + what + ")"; });
-    return nullptr;
-  }
-  if (count != 1 || got != (T)want_bits) {
-    r.fail(K + ":wrong-value", [&] { return ctx() + " returned " + s128((i128)got) + vf::fmt(" (%zu values)", count); });
-    return nullptr;
-  }
-  return "accepted: value exact";
-}
-
-// all targets x the chosen access paths for one (text, format)
-void int_text_case(vf::Run& r, const std::string& text, IntFormat f, bool wide_targets, bool all_paths) {
+void int_text_case(vf::Run& r, const std::string& text, IntFormat f, TypeSet types, bool all_paths) {
   RefNum ref = ref_numeral(text, f);
   Arguments named(std::vector<std::string>{"--x=" + text});
   std::optional<Arguments> pos;
@@ -400,104 +160,26 @@ void int_text_case(vf::Run& r, const std::string& text, IntFormat f, bool wide_t
     typedef decltype(tag) T;
     for (int via = 0; via < NVIA; via++) {
       if (via != VIA_NAMED && !all_paths) continue;
-      if (via == VIA_POSITIONAL && !can_pos) continue;
-      const char* c = int_read<T>(r, named, pos ? &*pos : nullptr, text, ref, f, (Via)via);
+      if ((via == VIA_POSITIONAL || via == VIA_POS_DEFAULT) && !can_pos) continue;
+      const char* c = int_read<T>(r, std::string("get<") + iname<T>() + ">", named, pos ? &*pos : nullptr, text, ref, f, (Via)via);
       if (!c) bad = true;
-      else if (via == VIA_NAMED && sizeof(T) == 2 && std::is_signed_v<T>) cls = c;
+      else if (via == VIA_NAMED && std::is_same_v<T, int16_t>) cls = c;
     }
   };
   run((int8_t)0); run((uint8_t)0); run((int16_t)0); run((uint16_t)0); run((int32_t)0); run((uint32_t)0);
-  if (wide_targets) { run((int64_t)0); run((uint64_t)0); }
+  if (types >= T_FIXED) { run((int64_t)0); run((uint64_t)0); }
+  if (types >= T_ALL) { run((long long)0); run((unsigned long long)0); run((char)0); run((wchar_t)0); run((char16_t)0); run((char32_t)0); }
+  // every read (accepted or rejected) leaves the stored text and the other container alone
+  if (named.named.size() != 1 || named.named.begin()->first != "x" || named.named.begin()->second.size() != 1 || named.named.begin()->second[0].text != text || !named.positional.empty()) {
+    bad = true;
+    r.fail("get<integer>:query-changed-stored-arguments", [&] { return "after typed reads of --x=" + short_show(text) + " the object holds " + ref_str(snapshot(named)); });
+  }
   if (!bad) r.ok(std::string("as int16_t: ") + (cls ? cls : "?"));
 }
 
-std::string render(i128 n, int style) {
-  bool neg = n < 0;
-  u128 m = neg ? (u128)(-(n + 1)) + 1 : (u128)n;
-  auto digits = [&](unsigned base) {
-    if (m == 0) return std::string("0");
-    std::string s;
-    u128 v = m;
-    while (v) { s.insert(s.begin(), "0123456789abcdef"[(int)(v % base)]); v /= base; }
-    return s;
-  };
-  std::string body;
-  switch (style) {
-    case 0: body = digits(10); break;
-    case 1: body = "0x" + digits(16); break;
-    case 2: body = digits(16); break;
-    case 3: body = "0" + digits(8); break;
-    case 4: body = digits(8); break;
-  }
-  return (neg ? "-" : "") + body;
-}
-const char* style_name[5] = {"decimal", "0x-hex", "bare hex", "0-octal", "bare octal"};
-
-// ---------------------------------------------------------------------------------------------------
-// floats
-// ---------------------------------------------------------------------------------------------------
-struct RefFloat {
-  Cls cls = INVALID;
-  double value = 0;
-  const char* why = "";
-};
-RefFloat ref_float(const std::string& t) {
-  RefFloat r;
-  if (t.empty()) { r.why = "empty"; return r; }
-  if (t[0] == ' ' || (t[0] >= '\t' && t[0] <= '\r')) { r.cls = DONTCARE; r.why = "leading blank"; return r; }
-  std::string s = t;
-  bool plus = false;
-  if (s[0] == '+') { plus = true; s = s.substr(1); if (!s.empty() && (s[0] == '-' || s[0] == '+')) { r.why = "two signs"; return r; } }
-  {
-    size_t k = (!s.empty() && s[0] == '-') ? 1 : 0;
-    if (k + 1 < s.size() && s[k] == '0' && (s[k + 1] == 'x' || s[k + 1] == 'X')) { r.cls = DONTCARE; r.why = "hexadecimal float"; return r; }
-    if (k < s.size() && (s[k] == 'i' || s[k] == 'I' || s[k] == 'n' || s[k] == 'N')) { r.cls = DONTCARE; r.why = "inf/nan spelling"; return r; }
-  }
-  double v = 0;
-  auto res = std::from_chars(s.data(), s.data() + s.size(), v, std::chars_format::general);
-  if (res.ptr != s.data() + s.size() || res.ec == std::errc::invalid_argument) { r.why = "not a complete literal"; return r; }
-  r.value = v;
-  if (res.ec == std::errc::result_out_of_range) { r.cls = DONTCARE; r.why = "literal outside the double range"; return r; }
-  r.cls = plus ? DONTCARE : VALID;
-  r.why = plus ? "explicit plus sign" : "literal";
-  return r;
-}
-
-template <class T>
-const char* float_read(vf::Run& r, Arguments& named, Arguments* positional, const std::string& text, const RefFloat& ref, int via) {
-  T got = 0;
-  size_t count = 1;
-  std::string what;
-  std::string oc = vf::outcome([&] {
-    set_ambient_errno(r, via);
-    switch (via) {
-      case VIA_NAMED: got = named.get<T>("x"); break;
-      case VIA_MULTI: { auto v = named.get_multi<T>("x"); count = v.size(); got = v.empty() ? 0 : v[0]; break; }
-      case VIA_DEFAULT: got = named.get<T>("x", std::optional<T>((T)9.25)); break;
-      case VIA_POSITIONAL: got = positional->get<T>((size_t)0); break;
-    }
-  }, &what);
-  r.counters["getter_calls"]++;
-  const char* tn = sizeof(T) == 4 ? "float" : "double";
-  std::string K = std::string("get<") + tn + ">";
-  static const char* vn[] = {"get<T>(name)", "get_multi<T>(name)", "get<T>(name, default)", "get<T>(position)"};
-  auto ctx = [&] { return vf::fmt("%s with T=%s on text ", vn[via], tn) + vf::show(text) + " (reference: " + ref.why + ")"; };
-  if (ref.cls == DONTCARE && !(oc == "ok" && ref.why[0] == 'e')) return "don't-care input (executed, not compared)";
-  if (oc != "ok" && oc != "invalid_argument") { r.fail(K + ":wrong-exception-type", [&] { return ctx() + " threw " + oc + " (" + what + ")"; }); return nullptr; }
-  if (ref.cls == INVALID) {
-    if (oc == "ok") { r.fail(K + ":accepts-incomplete-literal", [&] { return ctx() + vf::fmt(" returned %.17g, expected invalid_argument", (double)got); }); return nullptr; }
-    return "rejected: not a floating-point literal";
-  }
-  if (oc != "ok") { r.fail(K + ":rejects-literal", [&] { return ctx() + " threw invalid_argument (" + what + ")"; }); return nullptr; }
-  T want = (T)ref.value;
-  if (sizeof(T) == 4 && fabs(ref.value) > (double)std::numeric_limits<float>::max()) return "accepted: literal outside the float range (value not compared)";
-  T lo = std::nextafter(want, -std::numeric_limits<T>::infinity()), hi = std::nextafter(want, std::numeric_limits<T>::infinity());
-  if (count != 1 || !(got >= lo && got <= hi)) { r.fail(K + ":wrong-value", [&] { return ctx() + vf::fmt(" returned %.17g, std::from_chars gives %.17g", (double)got, (double)want); }); return nullptr; }
-  return got == want ? "accepted: equals from_chars" : "accepted: within 1 ulp of from_chars";
-}
 
 void float_text_case(vf::Run& r, const std::string& text) {
-  if (r.wants_desc()) r.desc("get<double>/get<float> (four access paths each) on text " + vf::show(text));
+  if (r.wants_desc()) r.desc("get<double>/get<float>/get<long double> (five access paths each) on text " + short_show(text));
   RefFloat ref = ref_float(text);
   Arguments named(std::vector<std::string>{"--x=" + text});
   std::optional<Arguments> pos;
@@ -507,15 +189,18 @@ void float_text_case(vf::Run& r, const std::string& text) {
   bool bad = false;
   const char* cls = nullptr;
   for (int via = 0; via < NVIA; via++) {
-    if (via == VIA_POSITIONAL && !can_pos) continue;
-    const char* c = float_read<double>(r, named, pos ? &*pos : nullptr, text, ref, via);
+    if ((via == VIA_POSITIONAL || via == VIA_POS_DEFAULT) && !can_pos) continue;
+    const char* c = float_read<double>(r, "get<double>", named, pos ? &*pos : nullptr, text, ref, via);
     if (!c) bad = true; else if (via == VIA_NAMED) cls = c;
-    c = float_read<float>(r, named, pos ? &*pos : nullptr, text, ref, via);
+    c = float_read<float>(r, "get<float>", named, pos ? &*pos : nullptr, text, ref, via);
+    if (!c) bad = true;
+    c = float_read<long double>(r, "get<long double>", named, pos ? &*pos : nullptr, text, ref, via);
     if (!c) bad = true;
   }
   if (ref.cls == VALID) r.xchecked++;
   if (!bad) r.ok(std::string("as double: ") + (cls ? cls : "?"));
 }
+
 
 // ---------------------------------------------------------------------------------------------------
 // getters x assert_none_unused
@@ -738,37 +423,43 @@ VF_SECTION(ints, 16, 16, 120) {
       for (IntFormat f : FORMATS) {
         if (!r.take()) continue;
         std::string text = render(n, style);
-        if (r.wants_desc()) r.desc(vf::fmt("n=%lld rendered as %s: ", (long long)n, style_name[style]) + vf::show(text) + vf::fmt(" read with IntFormat::%s as int8/uint8/int16/uint16/int32/uint32%s", fmt_name(f), near_boundary ? " through all four access paths" : ""));
-        int_text_case(r, text, f, false, near_boundary);
+        if (r.wants_desc()) r.desc(vf::fmt("n=%lld rendered as %s: ", (long long)n, style_name[style]) + vf::show(text) + vf::fmt(" read with IntFormat::%s as int8/uint8/int16/uint16/int32/uint32%s", fmt_name(f), near_boundary ? " through all five access paths" : ""));
+        int_text_case(r, text, f, T_NARROW, near_boundary);
       }
     }
   }
-  r.bound = "every n in [-70000,70000] x {decimal, 0x-hex, bare hex, 0-octal, bare octal} x IntFormat {DEFAULT,DECIMAL,HEX,OCTAL} x {int8,uint8,int16,uint16,int32,uint32} via get<T>(name,fmt); near type boundaries also get_multi, get with default and positional";
+  r.bound = "every n in [-70000,70000] x {decimal, 0x-hex, bare hex, 0-octal, bare octal} x IntFormat {DEFAULT,DECIMAL,HEX,OCTAL} x {int8,uint8,int16,uint16,int32,uint32} via get<T>(name,fmt); near type boundaries also get_multi, get with default, positional and positional with default";
 }
 
-VF_SECTION(bounds, 4, 4, 120) {
+VF_SECTION(bounds, 8, 8, 120) {
   r.note("parse_int");
   std::vector<i128> N;
   auto P2 = [](int k) { return (i128)1 << k; };
+  auto add = [&](i128 n) { for (i128 m : N) if (m == n) return; N.push_back(n); };
   // numerals that a modulo-2^64 conversion would turn into small values of the other sign (first, so that
   // the minimal reported case is the plain 2^64-1)
-  for (i128 small : {(i128)1, (i128)2, (i128)127, (i128)128, (i128)129, (i128)255, (i128)32768, (i128)32769, P2(31), P2(31) + 1, P2(32) - 1}) { N.push_back(P2(64) - small); N.push_back(-(P2(64) - small)); }
-  for (int k : {7, 8, 15, 16, 31, 32, 63, 64}) for (int d = -2; d <= 2; d++) { N.push_back(P2(k) + d); N.push_back(-(P2(k) + d)); }
+  for (i128 small : {(i128)1, (i128)2, (i128)127, (i128)128, (i128)129, (i128)255, (i128)32768, (i128)32769, P2(31), P2(31) + 1, P2(32) - 1}) { add(P2(64) - small); add(-(P2(64) - small)); }
+  for (int k : {7, 8, 15, 16, 31, 32, 63, 64}) for (int d = -2; d <= 2; d++) { add(P2(k) + d); add(-(P2(k) + d)); }
   i128 p = 1;
-  for (int k = 1; k <= 25; k++) { p *= 10; if (k >= 18) { N.push_back(p); N.push_back(-p); N.push_back(p - 1); } }
-  N.push_back(P2(65)); N.push_back(P2(96) + 5); N.push_back(-(P2(96) + 5)); N.push_back(P2(64) * 3 - 1);
+  for (int k = 1; k <= 25; k++) { p *= 10; if (k >= 18) { add(p); add(-p); add(p - 1); } }
+  add(P2(65)); add(P2(96) + 5); add(-(P2(96) + 5)); add(P2(64) * 3 - 1);
+  // +-(2^k - 1), +-2^k, +-(2^k + 1) for EVERY k up to 65: each bit position of the mask arithmetic, of every width
+  for (int k = 0; k <= 65; k++) for (int d = -1; d <= 1; d++) { add(P2(k) + d); add(-(P2(k) + d)); }
+  // multiples of 2^32 and 2^64 plus a small value: what a conversion through a narrower intermediate would keep
+  for (i128 small : {(i128)0, (i128)1, (i128)5, (i128)255}) { add(P2(32) * 3 + small); add(-(P2(32) * 3 + small)); add(P2(64) + small); add(-(P2(64) + small)); add(P2(64) * 2 + small); }
   for (i128 n : N) {
-    for (int style = 0; style < 5; style++) {
+    for (int style = 0; style < 7; style++) {
       for (IntFormat f : FORMATS) {
         if (!r.take()) continue;
         std::string text = render(n, style);
-        if (r.wants_desc()) r.desc("n=" + s128(n) + " rendered as " + style_name[style] + ": " + vf::show(text) + vf::fmt(" read with IntFormat::%s as all eight integer types through all access paths", fmt_name(f)));
-        int_text_case(r, text, f, true, true);
+        if (r.wants_desc()) r.desc("n=" + s128(n) + " rendered as " + style_name[style] + ": " + vf::show(text) + vf::fmt(" read with IntFormat::%s as all fourteen integer types through all access paths", fmt_name(f)));
+        int_text_case(r, text, f, T_ALL, true);
       }
     }
   }
+  r.counters["boundary_numerals"] += N.size();
   // garbage around numerals
-  static const char* NUMS[] = {"", "0", "7", "12", "-3", "0x1f", "017", "ff", "-0", "00", "08", "0x", "-", "9"};
+  static const char* NUMS[] = {"", "0", "7", "12", "-3", "0x1f", "017", "ff", "-0", "00", "08", "0x", "-", "9", "0X1F", "FF", "--3", "0x-1", "-0x10", "0b101", "1'000", "1_000", "١٢"};
   static const char* AFFIX[] = {"", "x", "+", "-", ".", "0x", "1 ", "_", " ", "\t", "0", "e1", "\n"};
   for (const char* num : NUMS) {
     for (const char* pre : AFFIX) {
@@ -776,13 +467,26 @@ VF_SECTION(bounds, 4, 4, 120) {
         for (IntFormat f : FORMATS) {
           if (!r.take()) continue;
           std::string text = std::string(pre) + num + suf;
-          if (r.wants_desc()) r.desc("text " + vf::show(text) + vf::fmt(" (prefix %s + numeral %s + suffix %s) read with IntFormat::%s as all eight integer types", vf::show(pre).c_str(), vf::show(num).c_str(), vf::show(suf).c_str(), fmt_name(f)));
-          int_text_case(r, text, f, true, false);
+          if (r.wants_desc()) r.desc("text " + vf::show(text) + vf::fmt(" (prefix %s + numeral %s + suffix %s) read with IntFormat::%s as all eight fixed-width integer types through all access paths", vf::show(pre).c_str(), vf::show(num).c_str(), vf::show(suf).c_str(), fmt_name(f)));
+          int_text_case(r, text, f, T_FIXED, true);
         }
       }
     }
   }
-  r.bound = "boundary numerals +-(2^k + {-2..2}) for k in {7,8,15,16,31,32,63,64}, +-(2^64 - small), 10^18..10^25, 2^65, 2^96+5 x 5 renderings x 4 formats x 8 targets x 4 access paths (64-bit targets compared only for |n| < 2^63); 14 numerals x 13 prefixes x 13 suffixes x 4 formats x 8 targets";
+  // long texts: leading zeros, long digit strings, long garbage (nothing may be cut off at a buffer size)
+  {
+    static const size_t LENS[] = {1, 2, 15, 16, 17, 19, 20, 21, 22, 23, 31, 32, 33, 63, 64, 65, 127, 128, 255, 256, 257, 1023, 1024, 4095, 4096, 65536};
+    static const char* TAILS[] = {"", "7", "77", "8", "f", "x", "7x", "7 ", ".", "18446744073709551615"};
+    static const char* HEADS[] = {"", "-", "0x", "-0x"};
+    for (size_t len : LENS) for (char fill : {'0', '1', '7', 'f'}) for (const char* head : HEADS) for (const char* tail : TAILS) for (IntFormat f : FORMATS) {
+      if (!r.take()) continue;
+      std::string text = std::string(head) + std::string(len, fill) + tail;
+      if (r.wants_desc()) r.desc(vf::fmt("text %s + %zu x '%c' + %s read with IntFormat::%s as all eight fixed-width integer types through all access paths", vf::show(head).c_str(), len, fill, vf::show(tail).c_str(), fmt_name(f)));
+      int_text_case(r, text, f, T_FIXED, true);
+    }
+  }
+  r.bound = vf::fmt("%zu boundary numerals: +-(2^k + {-1,0,1}) for every k in 0..65, +-(2^k + {-2..2}) for k in {7,8,15,16,31,32,63,64}, +-(2^64 - small), 10^18..10^25, multiples of 2^32/2^64 + small, 2^96+5", N.size()) +
+            " x 7 renderings (decimal, 0x/bare hex in both letter cases, 0-/bare octal) x 4 formats x 14 targets (the eight fixed-width types, long long, unsigned long long, char, wchar_t, char16_t, char32_t) x 5 access paths (64-bit targets compared only for |n| < 2^63); 23 numerals x 13 prefixes x 13 suffixes x 4 formats x 8 targets x 5 paths; long texts: 26 lengths (1..65536) x fill {0,1,7,f} x 4 heads x 10 tails x 4 formats x 8 targets x 5 paths";
 }
 
 VF_SECTION(floats, 8, 8, 120) {
@@ -805,7 +509,7 @@ VF_SECTION(floats, 8, 8, 120) {
     if (!r.take()) continue;
     float_text_case(r, std::string(pre) + b + suf);
   }
-  r.bound = "all literals [+-]d[d][.d[d]][e[+-]d[d]] over digits {0,1,9} (17316) and 36 further shapes x 13 prefixes x 13 suffixes; get<double>/get<float> through four access paths each; value vs std::from_chars within 1 ulp";
+  r.bound = "all literals [+-]d[d][.d[d]][e[+-]d[d]] over digits {0,1,9} (17316) and 36 further shapes x 13 prefixes x 13 suffixes; get<double>/get<float>/get<long double> through five access paths each; value vs std::from_chars within 1 ulp (long double compared at double precision)";
 }
 
 VF_SECTION(unused, 16, 16, 120) {
